@@ -557,7 +557,126 @@ def r20_7(ctx, prog, crate):
         ctx.check(direct or via, "R20.7", [fn, "pads-the-name"], "`%s` does not right-pad the name before the columns" % fn, b.where(0))
 
 
+def r20_8(ctx, prog, crate):
+    """Continuation rows belong to what they are labelled with: the per-operation / per-kind data arrays built with
+    `X::ALL.map(..)` (declaration order, so slot i holds variant i) are read at `item as usize` of the very loop item whose
+    label is printed (AllocOp::prefix) - or, when the array is taken apart by position, every (variant, slot) pair
+    satisfies slot == discriminant(variant)."""
+    from lib.symexpr import Sym, show
+    b = prog.body(P + "finish_leaf", crate)
+    if not ctx.anchor("R20.8", "TreePainter::finish_leaf", 1 if b else 0, 1):
+        return
+    ctx.saw(b)
+    S = Sym(b, site_args=True)
+    # arrays produced by `<Enum>::ALL.map(..)`
+    arrays = {}
+    for c in b.live_calls():
+        if c.callee.endswith("::map") and c.args and not c.dest["proj"]:
+            e0 = S.op(c.args[0])
+            if e0[0] == "opaque" and e0[1].startswith("uneval:") and e0[1].endswith("::ALL"):
+                arrays[c.dest["l"]] = e0[1][len("uneval:"):].rsplit("::", 1)[0]
+    # locals derived from such an array by moves / map(TreeColumnData) keep the slot order
+    grew = True
+    while grew:
+        grew = False
+        for c in b.live_calls():
+            if c.callee.endswith("::map") and c.args and c.args[0]["k"] in ("copy", "move") and not c.args[0]["p"]["proj"] and c.args[0]["p"]["l"] in arrays \
+                    and not c.dest["proj"] and c.dest["l"] not in arrays:
+                arrays[c.dest["l"]] = arrays[c.args[0]["p"]["l"]]
+                grew = True
+    ctx.anchor("R20.8", "per-variant arrays in finish_leaf (X::ALL.map)", arrays, 2)
+    indexed = {}
+    positional = {}
+    for bi, si, s in b.stmts():
+        if s["k"] != "assign" or s["rv"]["k"] not in ("ref", "use"):
+            continue
+        p = s["rv"]["p"] if s["rv"]["k"] == "ref" else (s["rv"]["o"].get("p") if s["rv"]["o"]["k"] in ("copy", "move") else None)
+        if p is None:
+            continue
+        base = p["l"]
+        if base not in arrays:
+            # through a reference to the array
+            d = direct_place(b, {"k": "copy", "p": {"l": base, "proj": [], "ty": ""}})
+            if d and d[0] == "place" and d[1] in arrays and not d[2]:
+                base = d[1]
+            elif d and d[0] == "call" and not d[1].dest["proj"] and d[1].dest["l"] in arrays:
+                base = d[1].dest["l"]
+        if base not in arrays:
+            continue
+        for pr in p["proj"]:
+            if pr["k"] == "index":
+                indexed.setdefault(base, []).append((bi, S.local(pr["l"])))
+            elif pr["k"] == "cindex":
+                positional.setdefault(base, []).append((bi, s["p"]["l"], pr["o"]))
+    labels = [c for c in b.live_calls() if c.callee == "alloc::AllocOp::prefix"]
+    ctx.anchor("R20.8", "AllocOp::prefix label sites", labels, 1)
+    ctx.anchor("R20.8", "slot reads of the per-variant arrays", sum(len(v) for v in indexed.values()) + sum(len(v) for v in positional.values()), 1)
+    for arr, enum in sorted(arrays.items()):
+        adt = prog.adt(enum, crate)
+        names = [v["name"] for v in adt["variants"]] if adt else []
+        for bi, e in indexed.get(arr, []):
+            ok = e[0] == "discr" and e[1][0] == "payload" and e[1][1] == "Some" and e[1][3][0] == "site" and e[1][3][1].endswith("::next")
+            ctx.check(ok, "R20.8", [enum.rsplit("::", 1)[-1], "slot-is-discriminant-of-loop-item"],
+                      "the %s array is read at %s, expected `<loop item> as usize`" % (enum, show(e)), b.where(bi))
+            if ok and enum.endswith("AllocOp"):
+                for c in labels:
+                    ctx.check(S.op(c.args[0]) == e[1], "R20.8", ["AllocOp", "label-of-the-same-item"],
+                              "the block labelled with prefix(%s) shows the data of slot %s" % (show(S.op(c.args[0])), show(e)), c.line())
+        pos = positional.get(arr, [])
+        if pos:
+            # taken apart by position: pair every positional read with the variant constant it travels with
+            pairs = []
+            slot_of = {l: k for _bi, l, k in pos}
+            for bi, si, s in b.stmts():
+                if s["k"] == "assign" and s["rv"]["k"] == "agg" and s["rv"]["ak"] == "tuple" and len(s["rv"]["ops"]) == 2:
+                    o0, o1 = s["rv"]["ops"]
+                    v = None
+                    if o0["k"] == "const" and enum.rsplit("::", 1)[-1] in str(o0["c"].get("d", "")):
+                        v = str(o0["c"]["d"]).rsplit("::", 1)[-1]
+                    elif o0["k"] in ("copy", "move") and not o0["p"]["proj"]:
+                        dfs = [d_ for d_ in b.prov.defs.get(o0["p"]["l"], []) if d_[0] == "S"]
+                        if len(dfs) == 1 and dfs[0][3]["rv"]["k"] == "agg" and dfs[0][3]["rv"]["ak"] == "adt" and norm(dfs[0][3]["rv"]["adt"]) == enum:
+                            v = dfs[0][3]["rv"]["variant"]
+                    if v is not None and o1["k"] in ("copy", "move"):
+                        # follow copies / reborrows of the positional reference
+                        l1 = o1["p"]["l"]
+                        k = slot_of.get(l1)
+                        for _ in range(4):
+                            if k is not None:
+                                break
+                            dfs = [d_ for d_ in b.prov.defs.get(l1, []) if d_[0] == "S"]
+                            if len(dfs) != 1:
+                                break
+                            rv1 = dfs[0][3]["rv"]
+                            src1 = rv1["p"]["l"] if rv1["k"] == "ref" else (rv1["o"]["p"]["l"] if rv1["k"] == "use" and rv1["o"]["k"] in ("copy", "move") else None)
+                            if src1 is None:
+                                break
+                            l1 = src1
+                            k = slot_of.get(l1)
+                        pairs.append((bi, v, k))
+            ok = len(pairs) == len(names) and all(v in names and k == names.index(v) for _bi, v, k in pairs)
+            ctx.check(ok, "R20.8", [enum.rsplit("::", 1)[-1], "positional-slots-match-declaration-order"],
+                      "the %s array is taken apart by position and paired as %s, but %s::ALL is in declaration order %s" % (
+                          enum, [(v, k) for _bi, v, k in pairs], enum, names), b.where(pos[0][0]))
+
+    # X::ALL itself is in declaration order (slot i <-> variant i): R20.4 checks TreeColumn::ALL, here AllocOp / KnownCounterKind
+    for enum in sorted(set(arrays.values())):
+        cb = None
+        for (ck, pth, pr), x in prog.bodies.items():
+            if ck == crate and pth == enum + "::ALL" and pr == -1:
+                cb = x
+        adt = prog.adt(enum, crate)
+        if cb is None or adt is None:
+            ctx.fail("R20.8/ANCHOR", [enum, "ALL"], "cannot read %s::ALL" % enum, None)
+            continue
+        names = [v["name"] for v in adt["variants"]]
+        elems = tables.const_array_elems(cb)
+        got = [e[1] if isinstance(e, tuple) and e[0] == "variant" else str(e) for e in (elems or [])]
+        ctx.check(got == names, "R20.8", [enum.rsplit("::", 1)[-1], "ALL-in-declaration-order"], "%s::ALL = %s, declared %s" % (enum, got, names), cb.where(0))
+
+
 def run(ctx, prog, crate):
+    r20_8(ctx, prog, crate)
     r20_7(ctx, prog, crate)
     r20_1(ctx, prog, crate)
     r20_2(ctx, prog, crate)
